@@ -110,3 +110,42 @@ Definition wf_item (pid : N) (it : item) : Prop :=
 (* no packet boundary of the PMT PID falls on an inner section end *)
 Definition cuts_ok (c : carrier) (l : list item) : Prop :=
   forall j, let k := len (concat (chunks (firstn j l))) in k < len (ser_unit c) -> ~ inner_end c k.
+
+(* ---- C14: what filtering has to produce ---- *)
+Definition keep_streams (want : list N) (ss : list es) : list es :=
+  filter (fun e => existsb (N.eqb (epid e)) want) ss.
+Definition with_streams_crc (s : pmt_sec) (ss : list es) (c : bytes) : pmt_sec :=
+  {| prog := prog s; sversion := sversion s; scni := scni s; secno := secno s; lastno := lastno s;
+     pcr_pid := pcr_pid s; pdescs := pdescs s; sstreams := ss; crc := c |}.
+(* same program header and program descriptors, the selected streams in their original order with their
+   descriptors, section_length recomputed by the serialiser, CRC field = ComputeCRC of the section bytes *)
+Definition filtered_sec (s : pmt_sec) (want : list N) : pmt_sec :=
+  let ss := keep_streams want (sstreams s) in
+  with_streams_crc s ss (crc_model (ser_sec_nocrc (with_streams_crc s ss []))).
+(* requested PIDs that count as missing: not in the PMT, and neither the PAT PID nor the PMT PID *)
+Definition missing_of (have : list N) (pmt_pid : N) (want : list N) : list N :=
+  filter (fun x => negb (existsb (N.eqb x) have) && negb (x =? 0) && negb (x =? pmt_pid)) want.
+(* re-packetisation: output packet i = header of input packet i (everything before its payload), the next
+   188 - |header| bytes of the data, 0xFF padding; input packets beyond the end of the data are dropped *)
+Fixpoint spec_repack (hdrs : list bytes) (data : bytes) : list bytes :=
+  match hdrs with
+  | [] => []
+  | h :: t =>
+    match data with
+    | [] => []
+    | _ => let room := 188 - len h in
+           let d := takeN room data in
+           (h ++ d ++ repeatN 255 (room - len d)) :: spec_repack t (dropN room data)
+    end
+  end.
+Definition hdr_of (pid : N) (pusi : bool) (m : pmisc) (af : option bytes) : bytes :=
+  [71; b2n (tei m) * 128 + b2n pusi * 64 + b2n (prio m) * 32 + pid / 256; pid mod 256;
+   tsc m * 64 + (match af with Some _ => 48 | None => 16 end) + cc m]
+  ++ (match af with Some a => len a :: a | None => [] end).
+Fixpoint hdrs_of (pid : N) (first : bool) (l : list item) : list bytes :=
+  match l with
+  | [] => []
+  | Other p :: t => hdrs_of pid first t
+  | Mine m af _ :: t => hdr_of pid first m af :: hdrs_of pid false t
+  end.
+Definition all_mine (l : list item) : Prop := Forall (fun it => match it with Mine _ _ _ => True | Other _ => False end) l.
